@@ -400,12 +400,23 @@ let c1_line (res : str) (s : state) (at : str) : str =
     (cat " " (SL.rev_map loop_str s.loops)) (SL.length s.rs)
     (hexbytes_of_string (string_of_coq s.out)) at
 
+exception Budget
+let with_budget (secs : int) (f : unit -> 'a) : 'a option =
+  let old = Sys.signal Sys.sigalrm (Sys.Signal_handle (fun _ -> raise Budget)) in
+  let fin () = ignore (Unix.alarm 0); Sys.set_signal Sys.sigalrm old in
+  ignore (Unix.alarm secs);
+  match f () with
+  | v -> fin (); Some v
+  | exception Budget -> fin (); None
+
 let run_c1 (t : str array) : str * str =
   cur_fops := host_fops;
   let lim = z_of_hex (Printf.sprintf "%x" (int_of_string t.(0))) in
   let s0 = set_limits (set_meter Boot.boot Z0) (Some lim) None None in
   let src = coq_of_string (string_of_hexbytes t.(1)) in
+  let only = try Sys.getenv "XEH_C1_ONLY" with Not_found -> "" in
   let mirror =
+    if only = "spec" then "UNSUP" else
     match Build.eval !cur_fops parse_real run_fuel build_fuel src s0 with
     | ROk ((), s) -> c1_line "ok" s "-"
     | RErr (k, p, s) ->
@@ -419,7 +430,13 @@ let run_c1 (t : str array) : str * str =
     | RPanic -> "PANIC"
     | RUnsup -> "UNSUP" in
   let spec =
-    match Struct.seval_source !cur_fops parse_real (nat_of_int (min 60000 (12 * int_of_string t.(0) + 400))) src s0 with
+    if only = "mirror" then "-" else
+    (* the structural evaluator has no instruction meter: it gets fuel in proportion to the limit and a time budget; when either
+       runs out the case is not compared with the specification *)
+    match with_budget 4 (fun () ->
+        Struct.seval_source !cur_fops parse_real (nat_of_int (min 60000 (3 * int_of_string t.(0) + 400))) src s0) with
+    | None -> "-"
+    | Some r -> match r with
     | Struct.CBuildErr k -> c1_line ("E" ^ kind_str k) s0 "-"
     | Struct.CUnsupported -> "-"
     | Struct.CRun r ->
@@ -429,4 +446,26 @@ let run_c1 (t : str array) : str * str =
        | Struct.SFail (k, p, (a, b), s) -> c1_line (err_text k p) s (Printf.sprintf "%d-%d" (ion a) (ion b))
        | Struct.SOut -> "-"
        | Struct.SUnsup -> "-") in
+  (mirror, spec)
+
+(* `c1c <hexsrc>`: compile only.  mirror: the code Build.v emits; spec: the jump-resolved layout of the parsed tree *)
+let run_c1c (t : str array) : str * str =
+  cur_fops := host_fops;
+  let s0 = Boot.boot in
+  let from = SL.length s0.code in
+  let src = coq_of_string (string_of_hexbytes t.(0)) in
+  let line res ops = Printf.sprintf "R=%s CODE=%s" res (cat " ; " (SL.map op_str ops)) in
+  let mirror =
+    match Build.compile !cur_fops parse_real run_fuel build_fuel src s0 with
+    | ROk ((), s) -> line "ok" (drop from s.code)
+    | RErr (k, p, s) -> line (err_text k p) (drop from s.code)
+    | RPanic -> "PANIC"
+    | RUnsup -> "UNSUP" in
+  let spec =
+    match Struct.parse_source !cur_fops parse_real src (nat_of_int (SL.length s0.heap)) with
+    | None -> "-"
+    | Some ((body, funs), _) ->
+      (match Struct.layout_program funs body (nat_of_int from) with
+       | Some ops -> line "ok" ops
+       | None -> "-") in
   (mirror, spec)
